@@ -23,6 +23,10 @@ def rules(ctx, db):
       "are written back by every backend before into_inner() reads them")
     R("R5", "LOOP", "multishot receive / accept streams re-submit when the kernel ended the multishot op, and stop "
       "only on end-of-stream, error or a fired cancel token")
+    R("R7", "FORWARD", "an op that wraps another op (managed / multishot / zero-copy / fused wrappers) forwards every trait "
+      "method the inner op overrides")
+    n7 = oc.rule_forward(ctx, db, "R7", want_socket=True)
+    ctx.floor("R7", "wrapper forwarding obligations (socket ops)", n7, 10)
     n1 = oc.rule_dir(ctx, db, "R1", want_socket=True)
     both = has_iour(db) and has_poll(db)
     ctx.floor("R1", "direction-typed buffer parameters (socket ops)", n1, 20 if both else 10)
